@@ -28,6 +28,7 @@ sets = [
     ("C20", lambda: prolog.replay_string_suffix_compare([])),
     ("C13", lambda: prolog.replay_term_order([])),
     ("C13atoms", lambda: prolog.replay_atom_order([])),
+    ("C21", lambda: prolog.replay_atom_identity([])),
 ]
 only = sys.argv[1:]
 bad = 0
